@@ -19,6 +19,9 @@ def run(ctx):
     vlib.tlc_mc(ctx, "MCCluster", "Cluster_c38_mc.cfg", coverage=ctx.thorough, heap="16g", timeout=3000, vacuity_ok=("Restart",))
     vlib.tlc_neg(ctx, "MCCluster", "Cluster_neg_SignalConfig.cfg", expect="NoStuckRead", heap="8g")
     vlib.tlc_neg(ctx, "MCCluster", "Cluster_neg_SignalBarrier.cfg", expect="NoStuckRead", heap="8g")
+    if ctx.thorough:
+        # a read waiting on a node that lost leadership and is caught up by InstallSnapshot: fsmRestore must signal
+        vlib.tlc_neg(ctx, "MCCluster", "Cluster_neg_SignalRestore.cfg", expect="NoStuckRead", heap="12g", timeout=3000)
     tr = os.path.join(ctx.scratch, "lrlive.ndjson")
     rows_all = []
     stats = []
